@@ -34,6 +34,10 @@ def run(case, idx):
                     os.makedirs(os.path.join(d, 'pk_' + name))
                     open(os.path.join(d, 'pk_' + name, '__init__.py'), 'w').close()
                     path = os.path.join(d, 'pk_' + name, name + '.py'); real = f'pk_{name}.{name}'
+                elif layout == 'namespace':
+                    # a namespace package: a directory without __init__.py
+                    os.makedirs(os.path.join(d, 'ns_' + name))
+                    path = os.path.join(d, 'ns_' + name, name + '.py'); real = f'ns_{name}.{name}'
                 else:
                     path = os.path.join(d, name + '.py')
                 with open(path, 'w') as f: f.write(src)
